@@ -163,6 +163,11 @@ def page_classes():
     c['cs_css_nontext_codec'] = _p(resp(b'a{background:url(x.png)}', ct=b'text/css; charset=base64'), path='/h.css')
     c['lm_garbage'] = _p(resp(headers=(b'Last-Modified: yesterday',)))
     c['lm_out_of_range'] = _p(resp(headers=(b'Last-Modified: Mon, 32 Foo 2020 25:61:61 GMT',)))
+    # well-formed dates no clock can hold
+    c['lm_year_overflow'] = _p(resp(headers=(b'Last-Modified: Thu, 01 Jan 2147483648 00:00:00 GMT',)))
+    c['lm_year_0'] = _p(resp(headers=(b'Last-Modified: Mon, 01 Jan 0000 00:00:00 GMT',)))
+    c['lm_before_epoch'] = _p(resp(headers=(b'Last-Modified: Sun, 01 Jan 1600 00:00:00 GMT',)))
+    c['lm_year_9999'] = _p(resp(headers=(b'Last-Modified: Fri, 31 Dec 9999 23:59:59 GMT',)))
     c['lm_empty'] = _p(resp(headers=(b'Last-Modified: ',)))
     c['lm_year_big'] = _p(resp(headers=(b'Last-Modified: Mon, 01 Jan 99999 00:00:00 GMT',)))
     c['rf_refresh_ipv6'] = _p(resp(headers=(b'Refresh: 0; url=http://[',)))
